@@ -180,6 +180,27 @@ Theorem deadline_is_earlier_of_timeout_and_context :
     exchange_deadline timeout read_timeout None = client_read_timeout timeout read_timeout.
 Proof. exact exchange_deadline_earliest. Qed.
 
+(* Several exchanges on ONE Conn (exchange_session: the receive size is a field
+   of the Conn, what an exchange leaves unread stays queued for the next one).
+   Whatever receive size the exchanges before left on the Conn and whatever
+   well-formed replies with other IDs are still queued or arrive first: when the
+   query advertises s >= 512 octets - by its OPT record, or without one by
+   Client.UDPSize - a matching reply of at most s octets is returned whole, and
+   the session continues with receive size s and the datagrams behind the reply. *)
+Theorem reused_conn_reply_whole :
+  forall (decodes : bytes -> bool) (client_size conn_size : N) (qid : N) (opt : option N) (s : N)
+         (queue arrivals fs : list bytes) (r : bytes) (later : list bytes)
+         (xs : list (N * option N * list bytes)),
+    512 <= s /\ (opt = Some s \/ (opt = None /\ s = client_size)) ->
+    queue ++ arrivals = fs ++ r :: later ->
+    Forall (fun d => (headerSize <= length (firstn (N.to_nat s) d))%nat /\
+                     decodes (firstn (N.to_nat s) d) = true /\
+                     msg_id (firstn (N.to_nat s) d) <> qid) fs ->
+    lenN r <= s -> (headerSize <= length r)%nat -> decodes r = true -> msg_id r = qid ->
+    exchange_session decodes client_size conn_size queue ((qid, opt, arrivals) :: xs) =
+    Ok r :: exchange_session decodes client_size s later xs.
+Proof. exact session_reply_whole. Qed.
+
 (* Whatever arrives in whatever order, an exchange never returns a reply with
    another ID, and what it returns is one of the datagrams received. *)
 Theorem exchange_never_returns_foreign :
